@@ -406,7 +406,7 @@ fn exec_value(v: &Value) -> Result<Value> {
 	let c = class_from(x)?;
 	let bytes = c.to_bytes();
 	let mut w = Vec::new();
-	let write_ok = c.write(&mut w).is_ok();
+	let write_ok = c.write(&mut super::FragW::new(&mut w)).is_ok();
 	let announced = c.length();
 	// history: another class read (and dropped) on this thread right before - what is read may not depend on it
 	if let Some(b) = v.get("before").filter(|b| b.get("constant_pool").is_some()) {
